@@ -44,13 +44,51 @@ struct RunOut {
     stderr: String,
 }
 
+/// Runs a binary with a generous wall-clock watchdog (a firing watchdog is inconclusive, never a verdict).
 fn run(bin: &Path, args: &[String]) -> Option<RunOut> {
-    let o = Command::new(bin).args(args).env("RUST_BACKTRACE", "0").stdin(std::process::Stdio::null()).output().ok()?;
-    Some(RunOut {
-        code: o.status.code(),
-        stdout: String::from_utf8_lossy(&o.stdout).to_string(),
-        stderr: String::from_utf8_lossy(&o.stderr).to_string(),
-    })
+    use std::io::Read;
+    let mut child = Command::new(bin)
+        .args(args)
+        .env("RUST_BACKTRACE", "0")
+        .stdin(std::process::Stdio::null())
+        .stdout(std::process::Stdio::piped())
+        .stderr(std::process::Stdio::piped())
+        .spawn()
+        .ok()?;
+    // outputs here are a few lines: far below the pipe capacity, so waiting first is safe
+    let t0 = std::time::Instant::now();
+    let status = loop {
+        match child.try_wait() {
+            Ok(Some(s)) => break s,
+            Ok(None) => {
+                if t0.elapsed() > std::time::Duration::from_secs(60) {
+                    let _ = child.kill();
+                    let _ = child.wait();
+                    WATCHDOG_FIRED.with(|w| w.set(w.get() + 1));
+                    return None;
+                }
+                std::thread::sleep(std::time::Duration::from_millis(1));
+            }
+            Err(_) => return None,
+        }
+    };
+    let mut so = String::new();
+    let mut se = String::new();
+    if let Some(mut o) = child.stdout.take() {
+        let mut b = Vec::new();
+        let _ = o.read_to_end(&mut b);
+        so = String::from_utf8_lossy(&b).to_string();
+    }
+    if let Some(mut e) = child.stderr.take() {
+        let mut b = Vec::new();
+        let _ = e.read_to_end(&mut b);
+        se = String::from_utf8_lossy(&b).to_string();
+    }
+    Some(RunOut { code: status.code(), stdout: so, stderr: se })
+}
+
+thread_local! {
+    static WATCHDOG_FIRED: std::cell::Cell<u64> = const { std::cell::Cell::new(0) };
 }
 
 pub fn answer_shaped(line: &str) -> bool {
@@ -260,7 +298,12 @@ fn success_runs(ctx: &mut Ctx, rng: &mut Rng, dir: &Path) {
         };
         for a in args_idx {
             // crustabri solve
-            let enc = *rng.pick(&[None, None, Some("aux_var"), Some("exp"), Some("hybrid")]);
+            let mut enc = *rng.pick(&[None, None, Some("aux_var"), Some("exp"), Some("hybrid")]);
+            if enc == Some("exp") && crate::props::static_eval::exp_cost(&inst.abs) > 2000 {
+                // repeated attack lines make the exp encoder's clause count explode (by design exponential)
+                ctx.count("skipped/exp-encoder-clause-explosion");
+                enc = None;
+            }
             let cert = rng.pct(50);
             let logging_on = rng.pct(20);
             let mut args: Vec<String> = vec!["solve".into(), "-f".into(), file.to_string_lossy().to_string(), "-p".into(), mix_case(rng, p)];
@@ -578,6 +621,10 @@ pub fn run_c05(ctx: &mut Ctx) {
         }
     }
     let _ = std::fs::remove_dir_all(&dir);
+    let fired = WATCHDOG_FIRED.with(|w| w.get());
+    for _ in 0..fired {
+        ctx.inconclusive("cli-run-stopped-by-watchdog");
+    }
 }
 
 pub fn replay_c05(ctx: &mut Ctx, case: &Value) -> Result<(), String> {
